@@ -327,6 +327,29 @@ def sl():
                 yield Program([Eq(Term('Y'), ctx, (leaves[rot:] + leaves[:rot])[:k], raw=True)], 'SL')
 
 
+def attribute_names():
+    """Every identifier that a model instance, its class or Python itself already uses, with and without the leading
+    underscore (a variable NAME is stored under '_NAME'), in several cases - the names a script could collide with."""
+    import builtins
+    import keyword
+    import fsic
+    Model = fsic.build_model(fsic.parse_model('Y = X'))
+    m = Model(range(3))
+    names = set(dir(m)) | set(m.__dict__) | set(dir(builtins)) | {'t', 'self', 'np', 'kwargs', 'errors', 'iteration', 'catch_first_error'}
+    names |= {n[1:] for n in names if n.startswith('_') and len(n) > 1}
+    names |= {n.lower() for n in names} | {n.upper() for n in names if n.islower() and len(n) < 12}
+    return sorted(n for n in names if re.fullmatch(r'[A-Za-z_][A-Za-z0-9_]*', n) and not keyword.iskeyword(n))
+
+
+def sn():
+    """Single-term programs over every attribute-like name: as a right-hand-side variable (with a lag) and as the left-hand side."""
+    for nm in attribute_names():
+        if nm in ('Y', 'W'):
+            continue
+        yield Program([Eq(Term('Y'), 'PH0 + PH1', [Term(nm), Term(nm, 'v', -1)])], 'SN')
+        yield Program([Eq(Term(nm), '2 * PH0', [Term('W', 'v', -1)])], 'SN')
+
+
 def vs():
     """Scripts with whole verbatim statements (inline and fenced), the same statement written once, twice, three times."""
     K, X, Z, Y = Term('K'), Term('X'), Term('Z'), Term('Y')
@@ -448,6 +471,7 @@ SPECIALS = [
     '`self._Y[t] = self._Y[t] * 2`\n`self._Y[t] = self._Y[t] * 2`\nZ = Y',
     'Y = {lam} * Y + (1 - {lam}) * (C + G)',
     'K = K + I - {d} * K[-1]',
+    'nan = na + NaN[-1] + {none} * <null>\nNone_ = nan + inf',   # names that read like missing-value markers are names
 ]
 
 
